@@ -447,6 +447,10 @@ def run(ctx) -> None:
     repo = ctx.repo
     check_calculate(ctx, repo.method('Economics', 'Calculate', 'geophires_x/Economics.py'), 'Economics')
     check_calculate(ctx, repo.method('SBTEconomics', 'Calculate', 'geophires_x/SBTEconomics.py'), 'SBTEconomics')
+    ctx.rule('K7', "the rate of NPV/VIR is the synchronised one: conversions store a number in the target's own unit, no stale copies (shared)")
+    from rules.rate_sync import check_rate_sync
+    _n = check_rate_sync(ctx, 'K7', only_functions={'sync_interest_rate'})
+    ctx.floor('K7', _n, 4, 'conversion assignments / sync functions of the rate family')
     ctx.undecided('that npf.irr finds the root (a reported non-zero IRR zeroes the NPV)', 'npf.npv numerics',
                   'N/A rendering of a zero payback in the report (C09)')
     ctx.assume('numpy_financial.irr returns a fraction and npv takes a fractional rate (library documentation)')
